@@ -7,7 +7,11 @@ the property's spec monitor is evaluated on the implementation's output.
 stdout: one line per problem
   `MISMATCH\t<lineno>\t<op>\timpl=<..>\tmodel=<..>`
   `MONITOR\t<prop>\t<lineno>\t<op>\timpl=<..>\t<reason>`
-and a final `DONE lines=<n> mismatches=<m> monitor=<k>`.
+  `INCONCLUSIVE\t<component>\t<lineno>\t<reason>`   a bounded acceptance search gave up on this line (`Res.inconclusive`):
+      NOT a problem — the search has no verdict, the component reports the output of an accepted history as `model`
+      (so no MISMATCH arises from the search), the monitor still judges the line; `check` ignores the line for the
+      verdict and counts it into the evidence
+and a final `DONE lines=<n> mismatches=<m> monitor=<k> inconclusive=<i>`.
 -/
 open Driver
 
@@ -16,6 +20,7 @@ structure St where
   lines : Nat := 0
   mism : Nat := 0
   mon : Nat := 0
+  inconcl : Nat := 0
 
 partial def loop (h : IO.FS.Stream) (out : IO.FS.Stream) (st : St) : IO St := do
   let line ← h.getLine
@@ -30,6 +35,13 @@ partial def loop (h : IO.FS.Stream) (out : IO.FS.Stream) (st : St) : IO St := do
   let (all, r) := Driver.dispatch st.all (op.splitOn " ") impl
   let n := st.lines + 1
   let mut st := { st with lines := n, all := all }
+  match r.inconclusive with
+  | some why =>
+    -- a search that gives up is inconclusive, never a rejection; the component then reports the output of an ACCEPTED
+    -- history as `model`, so an implementation output that is wrong whatever the search says (PANIC, hung, …) still differs
+    out.putStrLn s!"INCONCLUSIVE\t{(op.splitOn " ").headD ""}\t{n}\t{why.replace "\t" " "}"
+    st := { st with inconcl := st.inconcl + 1 }
+  | none => pure ()
   if r.model != impl then
     out.putStrLn s!"MISMATCH\t{n}\t{op}\timpl={impl}\tmodel={r.model}"
     st := { st with mism := st.mism + 1 }
@@ -47,5 +59,5 @@ def main : IO UInt32 := do
   let stdin ← IO.getStdin
   let stdout ← IO.getStdout
   let st ← loop stdin stdout {}
-  stdout.putStrLn s!"DONE lines={st.lines} mismatches={st.mism} monitor={st.mon}"
+  stdout.putStrLn s!"DONE lines={st.lines} mismatches={st.mism} monitor={st.mon} inconclusive={st.inconcl}"
   return 0
